@@ -10,6 +10,66 @@ import (
 	"strings"
 )
 
+// g1Bind: what a caller passes for a parameter of the helper being scanned (set while the helper is scanned for one call site).
+type g1Bind struct {
+	fi *FuncInfo
+	e  ast.Expr
+}
+
+var g1Binds = map[types.Object]g1Bind{}
+
+// bindParams binds the parameters of hd to the arguments of call (made in fi); returns the undo function.
+func bindParams(info *types.Info, hd *ast.FuncDecl, fi *FuncInfo, call *ast.CallExpr) func() {
+	var bound []types.Object
+	if hd.Type.Params != nil {
+		i := 0
+		for _, f := range hd.Type.Params.List {
+			for _, nm := range f.Names {
+				if obj := info.Defs[nm]; obj != nil && i < len(call.Args) {
+					if _, dup := g1Binds[obj]; !dup {
+						g1Binds[obj] = g1Bind{fi, call.Args[i]}
+						bound = append(bound, obj)
+					}
+				}
+				i++
+			}
+		}
+	}
+	return func() {
+		for _, o := range bound {
+			delete(g1Binds, o)
+		}
+	}
+}
+
+// astCallSites: the call expressions of module code that statically call fn.
+type astSite struct {
+	fi   *FuncInfo
+	call *ast.CallExpr
+}
+
+func (c *Ctx) astCallSites(fn types.Object) []astSite {
+	if _, ok := c.memo["astCallSites"]; !ok {
+		m := map[types.Object][]astSite{}
+		for _, cfi := range c.Funcs(c.Pkgs) {
+			if cfi.Decl.Body == nil || strings.HasSuffix(c.Fset.Position(cfi.Decl.Pos()).Filename, "_test.go") {
+				continue
+			}
+			cinfo := cfi.Pkg.TypesInfo
+			ast.Inspect(cfi.Decl.Body, func(n ast.Node) bool {
+				if call, ok := n.(*ast.CallExpr); ok {
+					if o := calleeObj(cinfo, call); o != nil && strings.HasPrefix(objPkgPath(o), modPath) {
+						m[o] = append(m[o], astSite{cfi, call})
+					}
+				}
+				return true
+			})
+		}
+		c.memo["astCallSites"] = m
+	}
+	return c.memo["astCallSites"].(map[types.Object][]astSite)[fn]
+}
+
 // selectGroup: one sql.NewSelect() builder — the chained calls plus later calls on the variable holding it.
 type selectGroup struct {
 	fi    *FuncInfo
@@ -17,6 +77,7 @@ type selectGroup struct {
 	from  *ast.CallExpr
 	name  string // variable name or ""
 	start token.Pos
+	obj   interface{} // the variable holding the builder (types.Object), when there is one
 }
 
 // chainRoot returns the innermost receiver of a method-call chain and the calls along it (outermost first).
@@ -71,7 +132,7 @@ func (c *Ctx) selectGroups(fi *FuncInfo) []*selectGroup {
 	multi := map[interface{}][]*selectGroup{}
 	// newGroup: the variable is (re)assigned a fresh NewSelect() chain at pos
 	newGroup := func(obj interface{}, name string, pos token.Pos) *selectGroup {
-		g := &selectGroup{fi: fi, name: name, start: pos}
+		g := &selectGroup{fi: fi, name: name, start: pos, obj: obj}
 		multi[obj] = append(multi[obj], g)
 		byVar[obj] = g
 		groups = append(groups, g)
@@ -181,6 +242,30 @@ func (c *Ctx) baseTables(fi *FuncInfo, e ast.Expr, depth int) []string {
 				out = append(out, c.baseTables(fi, x.Args[0], depth+1)...) // the second argument is only an alias
 				return false
 			}
+			if fn, ok := o.(*types.Func); ok && strings.HasPrefix(objPkgPath(o), modPath) && o.Name() != "GetTableName" && depth < 4 {
+				// a module helper that returns the table name
+				if sig := fn.Type().(*types.Signature); sig.Results().Len() == 1 && types.Identical(sig.Results().At(0).Type(), types.Typ[types.String]) {
+					if hp := c.ByPath[objPkgPath(o)]; hp != nil {
+						if hd := c.declOf(hp, fn); hd != nil && hd.Body != nil {
+							hfi := &FuncInfo{Pkg: hp, Decl: hd}
+							var got []string
+							ast.Inspect(hd.Body, func(m ast.Node) bool {
+								if _, isLit := m.(*ast.FuncLit); isLit {
+									return false
+								}
+								if r, ok := m.(*ast.ReturnStmt); ok && len(r.Results) == 1 {
+									got = append(got, c.baseTables(hfi, r.Results[0], depth+1)...)
+								}
+								return true
+							})
+							if len(got) > 0 {
+								out = append(out, got...)
+								return false
+							}
+						}
+					}
+				}
+			}
 			if o != nil && o.Name() == "GetTableName" && len(x.Args) == 1 {
 				if s, ok := constString(info, x.Args[0]); ok {
 					out = append(out, "table:"+s)
@@ -224,11 +309,37 @@ func (c *Ctx) baseTables(fi *FuncInfo, e ast.Expr, depth int) []string {
 			})
 			// parameter named like a table
 			if fi.Decl.Type.Params != nil {
+				idx := 0
 				for _, f := range fi.Decl.Type.Params.List {
 					for _, nm := range f.Names {
 						if info.Defs[nm] == obj {
-							out = append(out, "param:"+nm.Name)
+							// the table the callers pass, when every call site names one; else the parameter itself
+							fnObj := info.Defs[fi.Decl.Name]
+							var fromCallers []string
+							resolved, callers := true, 0
+							for _, cfi := range c.Funcs(c.Pkgs) {
+								cinfo := cfi.Pkg.TypesInfo
+								ast.Inspect(cfi.Decl.Body, func(n ast.Node) bool {
+									call, ok := n.(*ast.CallExpr)
+									if !ok || fnObj == nil || calleeObj(cinfo, call) != fnObj || idx >= len(call.Args) {
+										return true
+									}
+									callers++
+									bt := c.baseTables(cfi, call.Args[idx], depth+1)
+									if len(bt) == 0 {
+										resolved = false
+									}
+									fromCallers = append(fromCallers, bt...)
+									return true
+								})
+							}
+							if callers > 0 && resolved {
+								out = append(out, fromCallers...)
+							} else {
+								out = append(out, "param:"+nm.Name)
+							}
 						}
+						idx++
 					}
 				}
 			}
@@ -301,6 +412,16 @@ func (c *Ctx) boundSide(fi *FuncInfo, e ast.Expr, depth int) (fromLike, toLike b
 			}
 		case *ast.Ident:
 			name = x.Name
+			if bnd, ok := g1Binds[info.Uses[x]]; ok && info.Uses[x] != nil && depth < 6 {
+				// a parameter of the helper being scanned: what the caller passes decides, not the parameter's name
+				saved := g1Binds[info.Uses[x]]
+				delete(g1Binds, info.Uses[x])
+				f, t := c.boundSide(bnd.fi, bnd.e, depth+1)
+				g1Binds[info.Uses[x]] = saved
+				fromLike = fromLike || f
+				toLike = toLike || t
+				return true
+			}
 			if obj, ok := info.Uses[x].(*types.Var); ok && !obj.IsField() && depth < 4 {
 				ast.Inspect(fi.Decl, func(m ast.Node) bool {
 					switch s := m.(type) {
@@ -381,6 +502,12 @@ func (c *Ctx) scanPredsD(fi *FuncInfo, args []ast.Expr, pi *predInfo, depth int)
 		if id, ok := a.(*ast.Ident); ok && depth < 4 {
 			// local variable: every value assigned to it
 			obj := info.ObjectOf(id)
+			if bnd, ok := g1Binds[obj]; ok && obj != nil {
+				delete(g1Binds, obj)
+				c.scanPredsD(bnd.fi, []ast.Expr{bnd.e}, pi, depth+1)
+				g1Binds[obj] = bnd
+				continue
+			}
 			if v, isVar := obj.(*types.Var); isVar && !v.IsField() && fi.Decl.Body != nil {
 				ast.Inspect(fi.Decl.Body, func(n ast.Node) bool {
 					as, ok := n.(*ast.AssignStmt)
@@ -423,6 +550,7 @@ func (c *Ctx) scanPredsD(fi *FuncInfo, args []ast.Expr, pi *predInfo, depth int)
 				if hp := c.ByPath[objPkgPath(o)]; hp != nil {
 					if hd := c.declOf(hp, fn); hd != nil && hd.Body != nil {
 						hfi := &FuncInfo{Pkg: hp, Decl: hd}
+						undo := bindParams(hp.TypesInfo, hd, fi, call)
 						ast.Inspect(hd.Body, func(n ast.Node) bool {
 							if _, isLit := n.(*ast.FuncLit); isLit {
 								return false
@@ -432,6 +560,7 @@ func (c *Ctx) scanPredsD(fi *FuncInfo, args []ast.Expr, pi *predInfo, depth int)
 							}
 							return true
 						})
+						undo()
 					}
 				}
 			}
@@ -524,31 +653,50 @@ var ruleG1 = &Rule{
 					tc.index = tc.index || k.index
 					tc.hasTypes = tc.hasTypes || k.hasTypes
 				}
-				pi := &predInfo{}
-				for _, cl := range g.calls {
-					se := cl.Fun.(*ast.SelectorExpr)
-					if se.Sel.Name == "AndWhere" || se.Sel.Name == "AndPreWhere" {
-						c.scanPreds(fi, cl.Args, pi)
-					}
-				}
-				var miss []string
-				miss = append(miss, pi.bad...)
-				if tc.index {
-					if !pi.lowerDate && !pi.idIn {
-						miss = append(miss, "no lower `date` bound deriving from the window start (and no id-set restriction)")
-					}
-				} else {
-					if !(pi.lowerTS && pi.upperTS) && !pi.idIn {
-						if !pi.lowerTS {
-							miss = append(miss, "no lower timestamp bound deriving from the window start")
-						}
-						if !pi.upperTS {
-							miss = append(miss, "no upper timestamp bound deriving from the window end")
+				// the function may be a helper whose conditions come from its parameters: judge it once per call site
+				evalOnce := func() (*predInfo, []string) {
+					pi := &predInfo{}
+					for _, cl := range g.calls {
+						se := cl.Fun.(*ast.SelectorExpr)
+						if se.Sel.Name == "AndWhere" || se.Sel.Name == "AndPreWhere" {
+							c.scanPreds(fi, cl.Args, pi)
 						}
 					}
+					c.helperPreds(fi, g, pi, 0)
+					var miss []string
+					miss = append(miss, pi.bad...)
+					if tc.index {
+						if !pi.lowerDate && !pi.idIn {
+							miss = append(miss, "no lower `date` bound deriving from the window start (and no id-set restriction)")
+						}
+					} else {
+						if !(pi.lowerTS && pi.upperTS) && !pi.idIn {
+							if !pi.lowerTS {
+								miss = append(miss, "no lower timestamp bound deriving from the window start")
+							}
+							if !pi.upperTS {
+								miss = append(miss, "no upper timestamp bound deriving from the window end")
+							}
+						}
+					}
+					if tc.hasTypes && !pi.types && !pi.idIn {
+						miss = append(miss, "no signal-type predicate (GetTypes(ctx) / type IN …)")
+					}
+					return pi, miss
 				}
-				if tc.hasTypes && !pi.types && !pi.idIn {
-					miss = append(miss, "no signal-type predicate (GetTypes(ctx) / type IN …)")
+				pi, miss := evalOnce()
+				if sites := c.astCallSites(fi.Pkg.TypesInfo.Defs[fi.Decl.Name]); len(miss) > 0 && len(sites) > 0 && fi.Decl.Type.Params != nil && fi.Decl.Type.Params.NumFields() > 0 {
+					miss = nil
+					for _, site := range sites {
+						undo := bindParams(fi.Pkg.TypesInfo, fi.Decl, site.fi, site.call)
+						spi, smiss := evalOnce()
+						undo()
+						pi = spi
+						for _, m := range smiss {
+							miss = append(miss, m+" (as called at "+c.pos(site.call.Pos())+")")
+						}
+					}
+					miss = uniq(miss)
 				}
 				if len(miss) == 0 {
 					what := []string{}
@@ -566,6 +714,86 @@ var ruleG1 = &Rule{
 		}
 		return obls
 	},
+}
+
+// helperPreds: the builder held in a variable is handed to a module function (as an argument) that adds conditions to it; those
+// conditions are scanned in the helper's own context with its other parameters bound to the call's arguments.
+func (c *Ctx) helperPreds(fi *FuncInfo, g *selectGroup, pi *predInfo, depth int) {
+	obj, ok := g.obj.(types.Object)
+	if !ok || obj == nil || fi.Decl.Body == nil {
+		return
+	}
+	c.helperPredsOf(fi, obj, g.start, pi, depth)
+}
+
+func (c *Ctx) helperPredsOf(fi *FuncInfo, obj types.Object, after token.Pos, pi *predInfo, depth int) {
+	if depth > 2 {
+		return
+	}
+	info := fi.Pkg.TypesInfo
+	ast.Inspect(fi.Decl.Body, func(n ast.Node) bool {
+		call, ok := n.(*ast.CallExpr)
+		if !ok || call.Pos() < after {
+			return true
+		}
+		o := calleeObj(info, call)
+		fn, isFn := o.(*types.Func)
+		if !isFn || !strings.HasPrefix(objPkgPath(o), modPath) || objPkgPath(o) == pkgSQL {
+			return true
+		}
+		idx := -1
+		for i, a := range call.Args {
+			if id, ok := ast.Unparen(a).(*ast.Ident); ok && info.Uses[id] == obj {
+				idx = i
+			}
+		}
+		if idx < 0 {
+			return true
+		}
+		hp := c.ByPath[objPkgPath(o)]
+		if hp == nil {
+			return true
+		}
+		hd := c.declOf(hp, fn)
+		if hd == nil || hd.Body == nil || hd.Type.Params == nil {
+			return true
+		}
+		// the helper's parameter that receives the builder
+		var pobj types.Object
+		i := 0
+		for _, f := range hd.Type.Params.List {
+			for _, nm := range f.Names {
+				if i == idx {
+					pobj = hp.TypesInfo.Defs[nm]
+				}
+				i++
+			}
+		}
+		if pobj == nil {
+			return true
+		}
+		hfi := &FuncInfo{Pkg: hp, Decl: hd}
+		undo := bindParams(hp.TypesInfo, hd, fi, call)
+		delete(g1Binds, pobj)
+		ast.Inspect(hd.Body, func(m ast.Node) bool {
+			hc, ok := m.(*ast.CallExpr)
+			if !ok {
+				return true
+			}
+			root, calls := chainRoot(hp.TypesInfo, hc)
+			if id, ok := ast.Unparen(root).(*ast.Ident); ok && hp.TypesInfo.Uses[id] == pobj {
+				for _, cl := range calls {
+					if se, ok := cl.Fun.(*ast.SelectorExpr); ok && (se.Sel.Name == "AndWhere" || se.Sel.Name == "AndPreWhere") {
+						c.scanPredsD(hfi, cl.Args, pi, 1)
+					}
+				}
+			}
+			return true
+		})
+		c.helperPredsOf(hfi, pobj, token.NoPos, pi, depth+1)
+		undo()
+		return true
+	})
 }
 
 func init() { register(ruleG1) }
